@@ -8,7 +8,12 @@ RULE = ("every acyclic ADMG(n) and ancestral graph with undirected edges ANC(n) 
         "random graphs n<=8 and 60/600 seeded 5-6 node ancestral graphs with an undirected chain (quick also all ANC(4) with an "
         "undirected edge); every graph also as a MixedEdgeGraph from which edgeless layers are absent (all subsets); per graph all "
         "disjoint (X,Y,Z) with |X|,|Y|<=2 for the criterion (20 sampled for random graphs); plain DAGs also against "
-        "networkx.moral_graph; distinct by (canonical graph, layers present); non-trivial = the moral graph has an edge that is "
+        "networkx.moral_graph; REPEAT stream (every n<=3 graph, a slice of the 4-node classes, half of the 150/1500 "
+        "large-district graphs with 5-7 nodes, 25 % of the random graphs): object built for a neighbour graph with the same counts, "
+        "observed once and discarded, edited in place to the target graph, then judged; afterwards the RETURNED moral graph is edited "
+        "(an edge and a node removed) and the call repeated, and a copy() of the input is observed too; custom edge-type names "
+        "('dir','bidir','undir') passed explicitly to mixed_edge_moral_graph, _anterior, m_separated on a third of those and an eighth "
+        "of the random graphs. distinct by (canonical graph, layers present, repeat seed, layer names); non-trivial = the moral graph has an edge that is "
         "not an edge of the input skeleton")
 EXHAUSTIVE = {"quick": "all ADMG(n), ANC(n) n<=3, DAG(4), bidirected-only and undirected-only graphs on 4 nodes; all layer-absent variants", "thorough": "all ADMG(n), ANC(n) n<=4; all layer-absent variants"}
 TRUSTED = ["networkx compose / connected_components / predecessors / node_connected_component taken at face value",
@@ -34,7 +39,7 @@ TECHNIQUE = ("Coq proof (model = spec by path surgery and closure lemmas, unboun
              "finite enumeration (criterion, n<=3, n=4 single-edge class) + extracted-model correspondence (OCaml extraction, "
              "vm_compute spot checks)")
 SPOT_N = 25
-ASSUMPTIONS = ["default edge-type names", "int node labels (label families are C15's job)"]
+ASSUMPTIONS = ["edge-type names: default, and one custom triple passed explicitly (beyond the quantifier of C12)", "int node labels (label families are C15's job)"]
 
 
 def queries(nodes, maxxy=2, rng=None, limit=None):
@@ -135,6 +140,29 @@ def gen_cases(tier, rng):
         for y in ([chain[-1]] + rest[-1:]):
             qs.append([[chain[0]], [y], []])
         yield from with_layers({"kind": "undchain", "g": g, "qs": qs, "oracle": True}, g, full=False)
+    # REPEAT stream (warm-up on a neighbour graph, in-place edit, judged call; edit of the returned graph; copy) and
+    # custom edge-type names: every graph n<=3, a slice of the 4-node classes, 25 % of the random graphs
+    j = 0
+    for n in range(2, 5):
+        for src, nm in ((gr.enum_admg(n), "admg"), (gr.enum_anc(n), "anc")):
+            for g in src:
+                if nm == "anc" and not g["U"]:
+                    continue
+                j += 1
+                if n == 4 and (tier == "quick" and j % 40 != 0 or j % 4 != 0):
+                    continue
+                c = {"kind": "%s%d:rep" % (nm, n), "g": g, "qs": queries(g["V"]), "oracle": True, "rep": 100000 + j}
+                yield c
+                if j % 3 == 0:
+                    yield dict(c, kind="%s%d:names" % (nm, n), names=CUSTOM_NAMES, rep=None if j % 2 else c["rep"])
+    # large districts with several parents (5-7 nodes)
+    for i in range(150 if tier == "quick" else 1500):
+        n = rng.randint(5, 7)
+        g = gr.random_kinds_graph(rng, n, ["none", "<->", "<->", "->", "<-", "->&<->"], p_edge=rng.choice([0.35, 0.5]))
+        c = {"kind": "districts", "g": g, "qs": queries(g["V"], rng=rng, limit=12), "oracle": n <= 5}
+        if i % 2 == 0:
+            c["rep"] = 200000 + i
+        yield c
     for i in range(300 if tier == "quick" else 3000):
         n = rng.randint(4, 8)
         r = rng.random()
@@ -146,7 +174,13 @@ def gen_cases(tier, rng):
             g = gr.random_kinds_graph(rng, n, gr.DAG_KINDS, p_edge=rng.choice([0.3, 0.5]))
         else:
             g = gr.random_kinds_graph(rng, n, [rng.choice(["<->", "--"]), "none"], p_edge=rng.choice([0.3, 0.5]))
-        yield from with_layers({"kind": "rand", "g": g, "qs": queries(g["V"], rng=rng, limit=20), "oracle": n <= 5}, g)
+        c = {"kind": "rand", "g": g, "qs": queries(g["V"], rng=rng, limit=20), "oracle": n <= 5}
+        if i % 4 == 1:
+            c["rep"] = 300000 + i
+        if i % 8 == 3:
+            yield dict(c, kind="rand:names", names=CUSTOM_NAMES)
+        else:
+            yield from with_layers(c, g)
 
 
 def encode(case):
@@ -162,39 +196,88 @@ def is_plain_dag(g):
     return not g["B"] and not g["U"] and not g["C"]
 
 
-def run_impl(case):
+CUSTOM_NAMES = ["dir", "bidir", "undir"]
+
+
+def build(g, case):
+    """MixedEdgeGraph for g with the layers of case["layers"]; case["names"] = custom layer names
+    [directed, bidirected, undirected], handed to the API explicitly"""
+    names = case.get("names")
+    if not names:
+        layers = tuple(case.get("layers", ALL_LAYERS))
+        M, lab, inv = gr.to_mixed(g, case, layers=layers)
+        return M, lab, inv, {}, {}, {k: n for k, n in gr.LAYER_NAMES.items() if n in layers}
+    import networkx as nx
+    import pywhy_graphs.networkx as pywhy_nx
+    M = pywhy_nx.MixedEdgeGraph(graphs=[nx.DiGraph(), nx.Graph(), nx.Graph()], edge_types=list(names))
+    lmap = {"D": names[0], "B": names[1], "U": names[2]}
+    lab, inv = gr._fill(M, g, case, lmap)
+    kw = {"directed_edge_name": names[0], "bidirected_edge_name": names[1], "undirected_edge_name": names[2]}
+    kwa = {"directed_edge_name": names[0], "undirected_edge_name": names[2]}
+    return M, lab, inv, kw, kwa, lmap
+
+
+def _observe(M, lab, inv, kw, kwa, qs):
     import networkx as nx
     from pywhy_graphs.networkx.algorithms.causal.mixed_edge_moral import mixed_edge_moral_graph
     from pywhy_graphs.networkx.algorithms.causal.m_separation import _anterior, m_separated
-    g = case["g"]
-    M, lab, inv = gr.to_mixed(g, case, layers=tuple(case.get("layers", ALL_LAYERS)))
-    before = gr.snapshot(M)
-    R = mixed_edge_moral_graph(M)
-    after = gr.snapshot(M)
+    R = mixed_edge_moral_graph(M, **kw)
     out = {"nodes": sorted(inv(v) for v in R.nodes),
            "edges": sorted(sorted((inv(a), inv(b))) for a, b in R.edges())}
-    if before != after:
-        out["mutated"] = True
-    if is_plain_dag(g):
-        Dg, lab2, inv2 = gr.to_digraph(g, case)
-        N = nx.moral_graph(Dg)
-        out["nx"] = [sorted(inv2(v) for v in N.nodes), sorted(sorted((inv2(a), inv2(b))) for a, b in N.edges())]
     # the separation criterion, with the implementation's own pieces
     crit, msep = [], []
-    for X, Y, Z in case.get("qs", []):
+    for X, Y, Z in qs:
         Xs, Ys, Zs = ({lab(v) for v in S} for S in (X, Y, Z))
-        ant = _anterior(M, Xs | Ys | Zs)
+        ant = _anterior(M, Xs | Ys | Zs, **kwa)
         Gc = M.copy()
         Gc.remove_nodes_from(set(Gc.nodes()) - ant)
-        H = mixed_edge_moral_graph(Gc)
+        H = mixed_edge_moral_graph(Gc, **kw)
         H.remove_nodes_from(Zs)
         reach = set()
         for x in Xs:
             reach |= nx.node_connected_component(H, x)
         crit.append(int(not (reach & Ys)))
-        msep.append(int(bool(m_separated(M, Xs, Ys, Zs))))
+        msep.append(int(bool(m_separated(M, Xs, Ys, Zs, **kw))))
     out["crit"] = crit
     out["msep"] = msep
+    return out, R
+
+
+def run_impl(case):
+    import random
+    import networkx as nx
+    g = case["g"]
+    qs = case.get("qs", [])
+    rep = case.get("rep")
+    g0 = gr.perturb(g, random.Random(rep)) if rep is not None else None
+    if g0 is not None:
+        # REPEAT: warm up on a neighbour graph (same counts), edit the SAME object in place, then judge
+        M, lab, inv, kw, kwa, lmap = build(g0, case)
+        _observe(M, lab, inv, kw, kwa, qs)
+        gr.morph(M, g0, g, lab, lmap)
+    else:
+        M, lab, inv, kw, kwa, lmap = build(g, case)
+    before = gr.snapshot(M)
+    out, R = _observe(M, lab, inv, kw, kwa, qs)
+    if before != gr.snapshot(M):
+        out["mutated"] = True
+    if is_plain_dag(g):
+        Dg, lab2, inv2 = gr.to_digraph(g, case)
+        N = nx.moral_graph(Dg)
+        out["nx"] = [sorted(inv2(v) for v in N.nodes), sorted(sorted((inv2(a), inv2(b))) for a, b in N.edges())]
+    if rep is not None:
+        # the returned graph belongs to the caller: editing it must not influence a later call; a copy must behave alike
+        if R.number_of_edges():
+            R.remove_edge(*next(iter(R.edges())))
+        if R.number_of_nodes():
+            R.remove_node(next(iter(R.nodes())))
+        again, _ = _observe(M, lab, inv, kw, kwa, qs)
+        copied, _ = _observe(M.copy(), lab, inv, kw, kwa, qs)
+        keys = ("nodes", "edges", "crit", "msep")
+        if any(again[k] != out[k] for k in keys):
+            out["again_differs"] = True
+        if any(copied[k] != out[k] for k in keys):
+            out["copy_differs"] = True
     return out
 
 
@@ -213,6 +296,10 @@ def compare(case, impl, model):
         return "criterion"
     if impl["msep"] != impl["crit"]:
         return "criterion-vs-m_separated"
+    if impl.get("again_differs"):
+        return "second-call-after-editing-the-result"
+    if impl.get("copy_differs"):
+        return "copy-after-warm-up"
     return None
 
 
@@ -223,7 +310,7 @@ def nontrivial(case, model):
 
 
 def key(case):
-    return (gr.canon(case["g"]), tuple(case.get("layers", ALL_LAYERS)))
+    return (gr.canon(case["g"]), tuple(case.get("layers", ALL_LAYERS)), case.get("rep"), tuple(case.get("names") or ()))
 
 
 def classify(case, impl, model):
@@ -231,6 +318,10 @@ def classify(case, impl, model):
         return None
     if model["oracle"] is not None and model["oracle"] != model["crit"]:
         return None
+    if case.get("names"):
+        return "custom-edge-type-names"
+    if case.get("rep") is not None:
+        return "second-call-on-edited-object"
     if impl["nodes"] == model["nodes"]:
         im = {tuple(e) for e in impl["edges"]}
         mo = {tuple(e) for e in model["edges"]}
